@@ -14,7 +14,15 @@ git checkout -q -- .
 echo "== demo without change"; /venv/bin/python $D/demo.py $WT > /tmp/demo_without.txt 2>&1; echo "exit $?"; tail -2 /tmp/demo_without.txt
 mkdir -p /verif/seeded/$ID; cp $D/patch.diff $D/demo.py $D/meta.json /verif/seeded/$ID/
 cd /verif
-git -C /repo apply $D/patch.diff || { echo "DOES NOT APPLY TO /repo"; exit 2; }
-for c in "$@"; do echo "== check $c on seeded /repo"; ./check $c 2>&1 | grep -E "VIOLATION|HELD|VIOLATED|BROKEN" | head -4; done
-git -C /repo checkout -- .
-git -C /repo status --short | wc -l
+if [ "${SEED_IN_REPO:-0}" = "1" ]; then
+  git -C /repo apply $D/patch.diff || { echo "DOES NOT APPLY TO /repo"; exit 2; }
+  for c in "$@"; do echo "== check $c on seeded /repo"; ./check $c 2>&1 | grep -E "VIOLATION|HELD|VIOLATED|BROKEN" | head -4; done
+  git -C /repo checkout -- .
+  git -C /repo status --short | wc -l
+else
+  # while other workers run checks against /repo, use a scratch copy of /repo's working tree instead of /repo itself
+  S=/tmp/seedcheck-$$; rm -rf $S; mkdir -p $S; cp -r /repo/src $S/src
+  patch -s -p1 -d $S < $D/patch.diff || { echo "DOES NOT APPLY TO COPY"; rm -rf $S; exit 2; }
+  for c in "$@"; do echo "== check $c on seeded copy"; PFST_REPO=$S ./check $c 2>&1 | grep -E "VIOLATION|HELD|VIOLATED|BROKEN" | head -4; done
+  rm -rf $S
+fi
